@@ -683,13 +683,16 @@ class Tr:
     def call(self, n):
         text = ast.unparse(n)
         if text in self.sheet.TEXT_PRIMS:   # an exact source text the sheet gives a meaning to (free names checked)
-            uses, ret, code = self.sheet.TEXT_PRIMS[text]
+            uses, ret, code = self.sheet.TEXT_PRIMS[text][:3]
+            text_monadic = len(self.sheet.TEXT_PRIMS[text]) > 3 and self.sheet.TEXT_PRIMS[text][3]   # the text can raise
             for nm, ty in uses.items():
                 if nm not in self.env or (ty is not None and self.lean(self.env[nm]).ty != ty):
                     raise Refuse(f"`{text}`: `{nm}` is not the {ty} the sheet expects")
             for x in ast.walk(n):
                 if isinstance(x, ast.Name):
                     self.need_root(x.id)
+            if text_monadic:
+                return self.emit_bind(self.tmp(), ret, code)
             return V(ret, code)
         f = n.func
         ftext = ast.unparse(f)
